@@ -1,36 +1,52 @@
-//! C42 — connection hooks and connect preconditions gate every connection.
+//! C42 — connection hooks and connect preconditions gate every connection, on every connect VARIANT.
 //!
-//! Real code: `Endpoint::connect_with_opts` / `Connecting` / `Accepting` with `EndpointHooks`
-//! installed through `Builder::hooks` (public API only), two REAL endpoints on IPv4 loopback
+//! Real code: `Endpoint::connect` / `connect_with_opts` / `Connecting` / `Connecting::into_0rtt` /
+//! `Accepting` / `Incoming: IntoFuture` / `Accepting::into_0rtt` with `EndpointHooks` installed
+//! through `Builder::hooks` (public API only), REAL endpoints on IPv4 loopback
 //! (`presets::Minimal`, `clear_ip_transports`, 127.0.0.1:0, relay disabled, direct addresses).
 //!
-//! payload: `T=<peer|self> A=<ok|other|empty> DH=<hooks|-> AH=<hooks|->`
+//! payload: `T=<peer|self> A=<ok|other|empty> DH=<hooks|-> AH=<hooks|-> [V=<dv>/<av>]`
 //!   T   dial the acceptor, or the dialer's own id
 //!   A   protocol name dialed: the one the acceptor serves, one it does not serve, or empty
 //!   DH  hooks installed on the dialer, in order; AH hooks installed on the acceptor.
 //!       hook = `<before><after>`: before ∈ `a` accept | `r` reject; after ∈ `a` | `r<code>`
 //!       (reject with that close code; the reason is `hook<i>` + side letter)
-//! output: `d:<hook calls>|<dialer result> a:<hook calls>|<acceptor result>`
+//!   V   connect variants (default `o/a`).  dialer: `c` `Endpoint::connect`, `o` `connect_with_opts`
+//!       + await, `zn` `into_0rtt` without a session ticket (hands the `Connecting` back), `za`
+//!       `into_0rtt` with a ticket from an earlier full connection (0-RTT accepted), `zr` same but
+//!       the acceptor was restarted under the same key in between (0-RTT rejected, 1-RTT fallback).
+//!       acceptor: `a` `incoming.accept()?.await`, `i` `incoming.await`, `z` `Accepting::into_0rtt`
+//!       (the application reads BEFORE `handshake_completed()`).  `za`/`zr` need `T=peer A=ok`.
+//!       In `za`/`zr` the hooks accept silently during the ticket-obtaining connection; the scripted
+//!       verdicts and the logs are those of the connection under test.
+//! output: `d:<hook calls>|<dialer result>|<z> a:<hook calls>|<acceptor result>|<early>`
 //!   hook calls: `b<i>` (before_connect of hook i) / `a<i>` (after_handshake), `.`-joined, `-` if none;
-//!               the acceptor's list is `*` when the dialer's own after-hook rejected (the
-//!               acceptor races with the incoming close; the oracle checks what it saw)
+//!               the acceptor's part is `*|peer-rejected|*` when the dialer's own after-hook rejected
+//!               (the acceptor races with the incoming close; the oracle checks what it saw)
 //!   dialer:   `rej-before` | `self` | `invalid-alpn` | `noalpn` | `rej-after` | `closed:<code>` | `estab`
+//!   z:        `-` no 0-RTT attempted | `none` `into_0rtt` gave the `Connecting` back | `acc` | `rej`
+//!             | `?` attempted, `handshake_completed()` failed (status never learned)
 //!   acceptor: `none` (no Incoming at all) | `hs-failed` | `peer-rejected` | `rej-after` | `estab`
-//! `estab` = a byte went dialer → acceptor → dialer over a bidirectional stream.
+//!   early:    the application byte arrived on a 0-RTT stream and was read by the acceptor's
+//!             application `pre` = before its after-handshake hooks were invoked, `post` = after they
+//!             accepted; `-` otherwise
+//! `estab` = a byte went dialer → acceptor → dialer over a bidirectional stream.  In the 0-RTT
+//! variants the dialer writes that byte BEFORE `handshake_completed()`, i.e. before its hooks ran.
 //!
 //! Waiting discipline: every wait is bounded.  "No handshake output" is concluded from no
 //! `Incoming` within a grace period after the dialer's synchronous failure (loopback delivery is
 //! microseconds).  A bound that expires makes the scenario be retried (3 attempts), then it is
 //! reported as `infra` to model and implementation alike (never a violation).
 use std::net::Ipv4Addr;
+use std::sync::atomic::{AtomicBool, AtomicU64, Ordering::SeqCst};
 use std::sync::{Arc, Mutex};
 use std::time::Duration;
 
 use iroh::endpoint::{
-    AfterHandshakeOutcome, BeforeConnectOutcome, ConnectOptions, ConnectWithOptsError, Connection, ConnectingError,
-    ConnectionError, EndpointHooks, VarInt, presets,
+    AfterHandshakeOutcome, BeforeConnectOutcome, ConnectError, ConnectOptions, ConnectWithOptsError, Connection,
+    ConnectingError, ConnectionError, EndpointHooks, Incoming, RecvStream, SendStream, VarInt, ZeroRttStatus, presets,
 };
-use iroh::{Endpoint, EndpointAddr, EndpointId};
+use iroh::{Endpoint, EndpointAddr, EndpointId, SecretKey};
 use vcommon::*;
 
 const LONG: Duration = Duration::from_secs(10);
@@ -57,11 +73,29 @@ enum AlpnKind {
     Empty,
 }
 
+#[derive(Clone, Copy, Debug, PartialEq, Eq)]
+enum DVar {
+    Connect,
+    Opts,
+    ZNoTicket,
+    ZAccepted,
+    ZRejected,
+}
+
+#[derive(Clone, Copy, Debug, PartialEq, Eq)]
+enum AVar {
+    Accepting,
+    Incoming,
+    ZeroRtt,
+}
+
 struct Scenario {
     target: Target,
     alpn: AlpnKind,
     dh: Vec<HookSpec>,
     ah: Vec<HookSpec>,
+    dv: DVar,
+    av: AVar,
 }
 
 fn parse_hooks(s: &str) -> Option<Vec<HookSpec>> {
@@ -105,10 +139,34 @@ fn parse(payload: &str) -> Option<Scenario> {
     };
     let dh = parse_hooks(it.next()?.strip_prefix("DH=")?)?;
     let ah = parse_hooks(it.next()?.strip_prefix("AH=")?)?;
+    let (dv, av) = match it.next() {
+        None => (DVar::Opts, AVar::Accepting),
+        Some(v) => {
+            let (d, a) = v.strip_prefix("V=")?.split_once('/')?;
+            let dv = match d {
+                "c" => DVar::Connect,
+                "o" => DVar::Opts,
+                "zn" => DVar::ZNoTicket,
+                "za" => DVar::ZAccepted,
+                "zr" => DVar::ZRejected,
+                _ => return None,
+            };
+            let av = match a {
+                "a" => AVar::Accepting,
+                "i" => AVar::Incoming,
+                "z" => AVar::ZeroRtt,
+                _ => return None,
+            };
+            (dv, av)
+        }
+    };
     if it.next().is_some() || dh.len() > 4 || ah.len() > 4 {
         return None;
     }
-    Some(Scenario { target, alpn, dh, ah })
+    if matches!(dv, DVar::ZAccepted | DVar::ZRejected) && !(target == Target::Peer && alpn == AlpnKind::Ok) {
+        return None;
+    }
+    Some(Scenario { target, alpn, dh, ah, dv, av })
 }
 
 #[derive(Debug, Default)]
@@ -126,6 +184,8 @@ struct ScriptHook {
     log: Arc<Mutex<SideLog>>,
     expect_alpn: Vec<u8>,
     expect_remote: Arc<Mutex<Option<EndpointId>>>,
+    /// false while the ticket-obtaining connection runs: accept silently
+    live: Arc<AtomicBool>,
 }
 
 fn reason(side: char, idx: usize) -> Vec<u8> {
@@ -134,6 +194,9 @@ fn reason(side: char, idx: usize) -> Vec<u8> {
 
 impl EndpointHooks for ScriptHook {
     async fn before_connect<'a>(&'a self, remote_addr: &'a EndpointAddr, alpn: &'a [u8]) -> BeforeConnectOutcome {
+        if !self.live.load(SeqCst) {
+            return BeforeConnectOutcome::Accept;
+        }
         let mut l = self.log.lock().unwrap();
         l.calls.push(format!("b{}", self.idx));
         if alpn != self.expect_alpn.as_slice() {
@@ -148,6 +211,9 @@ impl EndpointHooks for ScriptHook {
     }
 
     async fn after_handshake<'a>(&'a self, conn: &'a Connection) -> AfterHandshakeOutcome {
+        if !self.live.load(SeqCst) {
+            return AfterHandshakeOutcome::Accept;
+        }
         let mut l = self.log.lock().unwrap();
         l.calls.push(format!("a{}", self.idx));
         if conn.alpn() != self.expect_alpn.as_slice() {
@@ -213,12 +279,15 @@ fn is_noalpn(s: &str) -> bool {
     l.contains("no_application_protocol") || l.contains("noapplicationprotocol") || l.contains("peer doesn't support any known protocol") || l.contains("error 120")
 }
 
-async fn builder(hooks: Vec<ScriptHook>, alpns: Vec<Vec<u8>>) -> Result<Endpoint, Fault> {
+async fn builder(hooks: Vec<ScriptHook>, alpns: Vec<Vec<u8>>, key: Option<SecretKey>) -> Result<Endpoint, Fault> {
     let mut b = Endpoint::builder(presets::Minimal)
         .clear_ip_transports()
         .bind_addr((Ipv4Addr::LOCALHOST, 0))
         .map_err(|e| Fault::Infra(format!("bind_addr: {e}")))?
         .alpns(alpns);
+    if let Some(k) = key {
+        b = b.secret_key(k);
+    }
     for h in hooks {
         b = b.hooks(h);
     }
@@ -232,69 +301,129 @@ async fn builder(hooks: Vec<ScriptHook>, alpns: Vec<Vec<u8>>) -> Result<Endpoint
 struct AccState {
     incomings: usize,
     res: Option<ARes>,
+    /// `pre` / `post` / none: see the module docs
+    early: Option<&'static str>,
 }
 
-/// The acceptor's loop: plain `Endpoint::accept`, as in the repo's endpoint tests.
-async fn accept_loop(ep: Endpoint, st: Arc<Mutex<AccState>>) {
-    while let Some(incoming) = ep.accept().await {
-        st.lock().unwrap().incomings += 1;
-        let st = st.clone();
-        tokio::spawn(async move {
-            let res = async {
-                let accepting = match incoming.accept() {
-                    Ok(a) => a,
-                    Err(e) => {
-                        // the TLS stack can refuse the very first flight (no common protocol)
-                        let s = format!("{e:#} {e:?}");
-                        return if is_noalpn(&s) { ARes::HsFailed } else { ARes::Err(short(&s)) };
-                    }
-                };
-                let conn = match accepting.await {
+fn classify_connecting_acc(e: &ConnectingError) -> ARes {
+    match e {
+        ConnectingError::LocallyRejected { .. } => ARes::RejAfter,
+        ConnectingError::ConnectionError { source, .. } => match app_close(source) {
+            Some((c, r)) => ARes::PeerClosed(c, r),
+            None => {
+                let s = format!("{e:#} {source:?}");
+                if is_noalpn(&s) { ARes::HsFailed } else { ARes::Err(short(&s)) }
+            }
+        },
+        other => {
+            let s = format!("{other:#}");
+            if is_noalpn(&s) { ARes::HsFailed } else { ARes::Err(short(&s)) }
+        }
+    }
+}
+
+async fn read_byte(recv: &mut RecvStream) -> Result<u8, ()> {
+    let mut b = [0u8; 1];
+    recv.read_exact(&mut b).await.map_err(|_| ())?;
+    Ok(b[0])
+}
+
+async fn echo_byte(send: &mut SendStream, b: u8) -> Result<(), ()> {
+    send.write_all(&[b]).await.map_err(|_| ())?;
+    send.finish().map_err(|_| ())
+}
+
+fn closed_to_ares(e: Result<ConnectionError, tokio::time::error::Elapsed>) -> ARes {
+    match e {
+        Ok(e) => match app_close(&e) {
+            Some((c, r)) => ARes::PeerClosed(c, r),
+            None => ARes::Err(short(&format!("{e:?}"))),
+        },
+        Err(_) => ARes::Err("exchange-timeout".into()),
+    }
+}
+
+/// One incoming connection, handled the way the acceptor variant says.
+async fn handle_incoming(incoming: Incoming, av: AVar, st: Arc<Mutex<AccState>>, alog: Arc<Mutex<SideLog>>) -> ARes {
+    // the connection as the application gets it once the hooks have run
+    let conn: Connection = match av {
+        AVar::Incoming => match incoming.await {
+            Ok(c) => c,
+            Err(e) => return classify_connecting_acc(&e),
+        },
+        AVar::Accepting | AVar::ZeroRtt => {
+            let accepting = match incoming.accept() {
+                Ok(a) => a,
+                Err(e) => {
+                    // the TLS stack can refuse the very first flight (no common protocol)
+                    let s = format!("{e:#} {e:?}");
+                    return if is_noalpn(&s) { ARes::HsFailed } else { ARes::Err(short(&s)) };
+                }
+            };
+            if av == AVar::Accepting {
+                match accepting.await {
                     Ok(c) => c,
-                    Err(e) => {
-                        return match &e {
-                            ConnectingError::LocallyRejected { .. } => ARes::RejAfter,
-                            ConnectingError::ConnectionError { source, .. } => match app_close(source) {
-                                Some((c, r)) => ARes::PeerClosed(c, r),
-                                None => {
-                                    let s = format!("{e:#} {source:?}");
-                                    if is_noalpn(&s) { ARes::HsFailed } else { ARes::Err(short(&s)) }
-                                }
-                            },
-                            other => {
-                                let s = format!("{other:#}");
-                                if is_noalpn(&s) { ARes::HsFailed } else { ARes::Err(short(&s)) }
-                            }
-                        };
+                    Err(e) => return classify_connecting_acc(&e),
+                }
+            } else {
+                // 0-RTT / 0.5-RTT: the application uses the connection BEFORE the hooks run
+                let z = accepting.into_0rtt();
+                let early = async {
+                    let (send, mut recv) = z.accept_bi().await.map_err(|_| ())?;
+                    let b = read_byte(&mut recv).await?;
+                    Ok::<_, ()>((send, recv.is_0rtt(), b))
+                };
+                let (mut send, is_0rtt, b) = match tokio::time::timeout(LONG, early).await {
+                    Ok(Ok(x)) => x,
+                    Ok(Err(())) | Err(_) => {
+                        return closed_to_ares(tokio::time::timeout(Duration::from_secs(5), z.closed()).await);
                     }
                 };
-                let echo = async {
-                    let (mut send, mut recv) = conn.accept_bi().await.map_err(|e| e)?;
-                    let mut b = [0u8; 1];
-                    recv.read_exact(&mut b).await.map_err(|_| ConnectionError::LocallyClosed)?;
-                    send.write_all(&b).await.map_err(|_| ConnectionError::LocallyClosed)?;
-                    send.finish().map_err(|_| ConnectionError::LocallyClosed)?;
-                    Ok::<(), ConnectionError>(())
+                let hooks_run = alog.lock().unwrap().calls.iter().any(|c| c.starts_with('a'));
+                if is_0rtt && !hooks_run {
+                    st.lock().unwrap().early = Some("pre");
+                }
+                let conn = match z.handshake_completed().await {
+                    Ok(c) => c,
+                    Err(e) => return classify_connecting_acc(&e),
                 };
-                match tokio::time::timeout(LONG, echo).await {
+                return match tokio::time::timeout(LONG, echo_byte(&mut send, b)).await {
                     Ok(Ok(())) => {
                         st.lock().unwrap().res = Some(ARes::Estab);
                         let _ = tokio::time::timeout(Duration::from_secs(5), conn.closed()).await;
                         ARes::Estab
                     }
-                    Ok(Err(_)) | Err(_) => {
-                        // why did it fail? (bounded)
-                        match tokio::time::timeout(Duration::from_secs(5), conn.closed()).await {
-                            Ok(e) => match app_close(&e) {
-                                Some((c, r)) => ARes::PeerClosed(c, r),
-                                None => ARes::Err(short(&format!("{e:?}"))),
-                            },
-                            Err(_) => ARes::Err("exchange-timeout".into()),
-                        }
-                    }
-                }
+                    _ => closed_to_ares(tokio::time::timeout(Duration::from_secs(5), conn.closed()).await),
+                };
             }
-            .await;
+        }
+    };
+    let echo = async {
+        let (mut send, mut recv) = conn.accept_bi().await.map_err(|_| ())?;
+        let b = read_byte(&mut recv).await?;
+        if recv.is_0rtt() {
+            st.lock().unwrap().early = Some("post");
+        }
+        echo_byte(&mut send, b).await
+    };
+    match tokio::time::timeout(LONG, echo).await {
+        Ok(Ok(())) => {
+            st.lock().unwrap().res = Some(ARes::Estab);
+            let _ = tokio::time::timeout(Duration::from_secs(5), conn.closed()).await;
+            ARes::Estab
+        }
+        Ok(Err(())) | Err(_) => closed_to_ares(tokio::time::timeout(Duration::from_secs(5), conn.closed()).await),
+    }
+}
+
+/// The acceptor's loop: plain `Endpoint::accept`, as in the repo's endpoint tests.
+async fn accept_loop(ep: Endpoint, av: AVar, st: Arc<Mutex<AccState>>, alog: Arc<Mutex<SideLog>>) {
+    while let Some(incoming) = ep.accept().await {
+        st.lock().unwrap().incomings += 1;
+        let st = st.clone();
+        let alog = alog.clone();
+        tokio::spawn(async move {
+            let res = handle_incoming(incoming, av, st.clone(), alog).await;
             let mut s = st.lock().unwrap();
             if s.res.is_none() || res != ARes::Estab {
                 s.res = Some(res);
@@ -310,7 +439,135 @@ struct Obs {
     ares: ARes,
     incomings: usize,
     arg_faults: Vec<String>,
+    z: &'static str,
+    early: Option<&'static str>,
 }
+
+fn classify_opts(e: &ConnectWithOptsError) -> DRes {
+    match e {
+        ConnectWithOptsError::LocallyRejected { .. } => DRes::RejBefore,
+        ConnectWithOptsError::SelfConnect { .. } => DRes::SelfConnect,
+        ConnectWithOptsError::InvalidAlpn { .. } => DRes::InvalidAlpn,
+        other => DRes::Err(short(&format!("{other:#}"))),
+    }
+}
+
+fn classify_connecting(e: &ConnectingError) -> DRes {
+    match e {
+        ConnectingError::LocallyRejected { .. } => DRes::RejAfter,
+        ConnectingError::ConnectionError { source, .. } => classify_connection(source, &format!("{e:#}")),
+        other => {
+            let s = format!("{other:#}");
+            if is_noalpn(&s) { DRes::NoAlpn } else { DRes::Err(short(&s)) }
+        }
+    }
+}
+
+fn classify_connection(source: &ConnectionError, ctx: &str) -> DRes {
+    match app_close(source) {
+        Some((c, r)) => DRes::Closed(c, r),
+        None => {
+            let s = format!("{ctx} {source:?}");
+            if is_noalpn(&s) { DRes::NoAlpn } else { DRes::Err(short(&s)) }
+        }
+    }
+}
+
+async fn why_closed(conn: &Connection) -> DRes {
+    match tokio::time::timeout(Duration::from_secs(5), conn.closed()).await {
+        Ok(e) => match app_close(&e) {
+            Some((c, r)) => DRes::Closed(c, r),
+            None => DRes::Err(short(&format!("{e:?}"))),
+        },
+        Err(_) => DRes::Err("exchange-timeout".into()),
+    }
+}
+
+/// After the echo came back: let the acceptor note the exchange, then close.
+async fn finish_estab(conn: &Connection, watched: &Arc<Mutex<AccState>>) -> DRes {
+    let t0 = tokio::time::Instant::now();
+    while watched.lock().unwrap().res != Some(ARes::Estab) && t0.elapsed() < Duration::from_secs(5) {
+        tokio::time::sleep(Duration::from_millis(1)).await;
+    }
+    conn.close(0u32.into(), b"bye");
+    DRes::Estab
+}
+
+/// The byte round trip on an established connection (fresh stream).
+async fn exchange(conn: &Connection, watched: &Arc<Mutex<AccState>>) -> DRes {
+    let x = async {
+        let (mut send, mut recv) = conn.open_bi().await.map_err(|_| ())?;
+        send.write_all(&[0x5a]).await.map_err(|_| ())?;
+        send.finish().map_err(|_| ())?;
+        if read_byte(&mut recv).await? == 0x5a { Ok(()) } else { Err(()) }
+    };
+    match tokio::time::timeout(LONG, x).await {
+        Ok(Ok(())) => finish_estab(conn, watched).await,
+        Ok(Err(())) | Err(_) => why_closed(conn).await,
+    }
+}
+
+/// One dial in the given variant. Returns the result and the 0-RTT status token.
+async fn dial(dv: DVar, dialer: &Endpoint, addr: EndpointAddr, alpn: &[u8], watched: &Arc<Mutex<AccState>>) -> (DRes, &'static str) {
+    if dv == DVar::Connect {
+        return match dialer.connect(addr, alpn).await {
+            Ok(conn) => (exchange(&conn, watched).await, "-"),
+            Err(e) => (
+                match &e {
+                    ConnectError::Connect { source, .. } => classify_opts(source),
+                    ConnectError::Connecting { source, .. } => classify_connecting(source),
+                    ConnectError::Connection { source, .. } => classify_connection(source, &format!("{e:#}")),
+                    other => DRes::Err(short(&format!("{other:#}"))),
+                },
+                "-",
+            ),
+        };
+    }
+    let connecting = match dialer.connect_with_opts(addr, alpn, ConnectOptions::new()).await {
+        Ok(c) => c,
+        Err(e) => return (classify_opts(&e), "-"),
+    };
+    if dv == DVar::Opts {
+        return match connecting.await {
+            Ok(conn) => (exchange(&conn, watched).await, "-"),
+            Err(e) => (classify_connecting(&e), "-"),
+        };
+    }
+    // the 0-RTT variants
+    let zc = match connecting.into_0rtt() {
+        Err(connecting) => {
+            return match connecting.await {
+                Ok(conn) => (exchange(&conn, watched).await, "none"),
+                Err(e) => (classify_connecting(&e), "none"),
+            };
+        }
+        Ok(zc) => zc,
+    };
+    // application data BEFORE the handshake completed, i.e. before any after-handshake hook ran
+    let early = async {
+        let (mut send, recv) = zc.open_bi().await.map_err(|_| ())?;
+        send.write_all(&[0x5a]).await.map_err(|_| ())?;
+        send.finish().map_err(|_| ())?;
+        Ok::<_, ()>(recv)
+    };
+    let early_recv = tokio::time::timeout(LONG, early).await;
+    match zc.handshake_completed().await {
+        Err(e) => (classify_connecting(&e), "?"),
+        Ok(ZeroRttStatus::Accepted(conn)) => {
+            let r = match early_recv {
+                Ok(Ok(mut recv)) => match tokio::time::timeout(LONG, read_byte(&mut recv)).await {
+                    Ok(Ok(0x5a)) => finish_estab(&conn, watched).await,
+                    _ => why_closed(&conn).await,
+                },
+                _ => why_closed(&conn).await,
+            };
+            (r, "acc")
+        }
+        Ok(ZeroRttStatus::Rejected(conn)) => (exchange(&conn, watched).await, "rej"),
+    }
+}
+
+static KEYS: AtomicU64 = AtomicU64::new(1);
 
 async fn scenario(sc: &Scenario) -> Result<Obs, Fault> {
     let alpn: Vec<u8> = match sc.alpn {
@@ -322,6 +579,8 @@ async fn scenario(sc: &Scenario) -> Result<Obs, Fault> {
     let alog: Arc<Mutex<SideLog>> = Arc::default();
     let d_remote: Arc<Mutex<Option<EndpointId>>> = Arc::default();
     let a_remote: Arc<Mutex<Option<EndpointId>>> = Arc::default();
+    let warm = matches!(sc.dv, DVar::ZAccepted | DVar::ZRejected);
+    let live = Arc::new(AtomicBool::new(!warm));
     let mk = |specs: &[HookSpec], side: char, log: &Arc<Mutex<SideLog>>, remote: &Arc<Mutex<Option<EndpointId>>>| {
         specs
             .iter()
@@ -333,18 +592,47 @@ async fn scenario(sc: &Scenario) -> Result<Obs, Fault> {
                 log: log.clone(),
                 expect_alpn: alpn.clone(),
                 expect_remote: remote.clone(),
+                live: live.clone(),
             })
             .collect::<Vec<_>>()
     };
+    let mut kb = [7u8; 32];
+    kb[..8].copy_from_slice(&KEYS.fetch_add(1, SeqCst).to_le_bytes());
+    kb[8..16].copy_from_slice(&(std::process::id() as u64).to_le_bytes());
+    let akey = SecretKey::from_bytes(&kb);
     // the dialer also serves the protocol, so that a self-dial is refused by the precondition
     // and not for want of a listener
-    let dialer = builder(mk(&sc.dh, 'd', &dlog, &d_remote), vec![ALPN_OK.to_vec()]).await?;
-    let acceptor = builder(mk(&sc.ah, 'a', &alog, &a_remote), vec![ALPN_OK.to_vec()]).await?;
+    let dialer = builder(mk(&sc.dh, 'd', &dlog, &d_remote), vec![ALPN_OK.to_vec()], None).await?;
+    let mut acceptor = builder(mk(&sc.ah, 'a', &alog, &a_remote), vec![ALPN_OK.to_vec()], Some(akey.clone())).await?;
     *a_remote.lock().unwrap() = Some(dialer.id());
-    let acc_state: Arc<Mutex<AccState>> = Arc::default();
+    let mut acc_state: Arc<Mutex<AccState>> = Arc::default();
     let self_state: Arc<Mutex<AccState>> = Arc::default();
-    let t_acc = tokio::spawn(accept_loop(acceptor.clone(), acc_state.clone()));
-    let t_self = tokio::spawn(accept_loop(dialer.clone(), self_state.clone()));
+    let mut t_acc = tokio::spawn(accept_loop(acceptor.clone(), sc.av, acc_state.clone(), alog.clone()));
+    let t_self = tokio::spawn(accept_loop(dialer.clone(), AVar::Accepting, self_state.clone(), dlog.clone()));
+
+    // ---- 0-RTT variants: a full connection first, to obtain a session ticket ----
+    if warm {
+        *d_remote.lock().unwrap() = Some(acceptor.id());
+        let (r, _) = tokio::time::timeout(Duration::from_secs(30), dial(DVar::Opts, &dialer, acceptor.addr(), &alpn, &acc_state))
+            .await
+            .map_err(|_| Fault::Infra("ticket connection timed out".into()))?;
+        if r != DRes::Estab {
+            return Err(Fault::Infra(format!("ticket connection failed: {r:?}")));
+        }
+        // let the ticket and the close settle
+        tokio::time::sleep(Duration::from_millis(30)).await;
+        if sc.dv == DVar::ZRejected {
+            // "restart" the acceptor under the same key: its ticket state is gone
+            t_acc.abort();
+            let _ = tokio::time::timeout(Duration::from_secs(3), acceptor.close()).await;
+            acceptor = builder(mk(&sc.ah, 'a', &alog, &a_remote), vec![ALPN_OK.to_vec()], Some(akey.clone())).await?;
+            acc_state = Arc::default();
+            t_acc = tokio::spawn(accept_loop(acceptor.clone(), sc.av, acc_state.clone(), alog.clone()));
+        } else {
+            *acc_state.lock().unwrap() = AccState::default();
+        }
+        live.store(true, SeqCst);
+    }
 
     let (target_addr, watched) = match sc.target {
         Target::Peer => (acceptor.addr(), acc_state.clone()),
@@ -353,67 +641,9 @@ async fn scenario(sc: &Scenario) -> Result<Obs, Fault> {
     *d_remote.lock().unwrap() = Some(target_addr.id);
 
     // ---- the dial ----
-    let dial = async {
-        let connecting = match dialer.connect_with_opts(target_addr.clone(), &alpn, ConnectOptions::new()).await {
-            Ok(c) => c,
-            Err(e) => {
-                return match &e {
-                    ConnectWithOptsError::LocallyRejected { .. } => DRes::RejBefore,
-                    ConnectWithOptsError::SelfConnect { .. } => DRes::SelfConnect,
-                    ConnectWithOptsError::InvalidAlpn { .. } => DRes::InvalidAlpn,
-                    other => DRes::Err(short(&format!("{other:#}"))),
-                };
-            }
-        };
-        let conn = match connecting.await {
-            Ok(c) => c,
-            Err(e) => {
-                return match &e {
-                    ConnectingError::LocallyRejected { .. } => DRes::RejAfter,
-                    ConnectingError::ConnectionError { source, .. } => match app_close(source) {
-                        Some((c, r)) => DRes::Closed(c, r),
-                        None => {
-                            let s = format!("{e:#} {source:?}");
-                            if is_noalpn(&s) { DRes::NoAlpn } else { DRes::Err(short(&s)) }
-                        }
-                    },
-                    other => {
-                        let s = format!("{other:#}");
-                        if is_noalpn(&s) { DRes::NoAlpn } else { DRes::Err(short(&s)) }
-                    }
-                };
-            }
-        };
-        let exchange = async {
-            let (mut send, mut recv) = conn.open_bi().await.map_err(|_| ())?;
-            send.write_all(&[0x5a]).await.map_err(|_| ())?;
-            send.finish().map_err(|_| ())?;
-            let mut b = [0u8; 1];
-            recv.read_exact(&mut b).await.map_err(|_| ())?;
-            if b[0] == 0x5a { Ok(()) } else { Err(()) }
-        };
-        match tokio::time::timeout(LONG, exchange).await {
-            Ok(Ok(())) => {
-                // let the acceptor note the exchange before the close arrives
-                let t0 = tokio::time::Instant::now();
-                while watched.lock().unwrap().res != Some(ARes::Estab) && t0.elapsed() < Duration::from_secs(5) {
-                    tokio::time::sleep(Duration::from_millis(1)).await;
-                }
-                conn.close(0u32.into(), b"bye");
-                DRes::Estab
-            }
-            Ok(Err(())) | Err(_) => match tokio::time::timeout(Duration::from_secs(5), conn.closed()).await {
-                Ok(e) => match app_close(&e) {
-                    Some((c, r)) => DRes::Closed(c, r),
-                    None => DRes::Err(short(&format!("{e:?}"))),
-                },
-                Err(_) => DRes::Err("exchange-timeout".into()),
-            },
-        }
-    };
-    let dres = match tokio::time::timeout(Duration::from_secs(30), dial).await {
+    let (dres, z) = match tokio::time::timeout(Duration::from_secs(30), dial(sc.dv, &dialer, target_addr.clone(), &alpn, &watched)).await {
         Ok(r) => r,
-        Err(_) => DRes::Err("dial-timeout".into()),
+        Err(_) => (DRes::Err("dial-timeout".into()), "-"),
     };
 
     // ---- what did the acceptor see? ----
@@ -438,9 +668,9 @@ async fn scenario(sc: &Scenario) -> Result<Obs, Fault> {
     if let (DRes::Err(e), true) = (&dres, fault.is_none()) {
         fault = Some(if e.ends_with("-timeout") { Fault::Infra(format!("dialer: {e}")) } else { Fault::Odd(format!("dialer-err:{e}")) });
     }
-    let (ares, incomings) = {
+    let (ares, incomings, early) = {
         let s = watched.lock().unwrap();
-        (s.res.clone().unwrap_or(ARes::None), s.incomings)
+        (s.res.clone().unwrap_or(ARes::None), s.incomings, s.early)
     };
     // the endpoint that was NOT dialed must have seen nothing
     let stray = match sc.target {
@@ -468,8 +698,7 @@ async fn scenario(sc: &Scenario) -> Result<Obs, Fault> {
     let a = alog.lock().unwrap();
     let mut arg_faults = d.arg_faults.clone();
     arg_faults.extend(a.arg_faults.iter().cloned());
-    // on a self dial the "acceptor side" hooks are the dialer's own list; nothing to report for AH
-    Ok(Obs { dcalls: d.calls.clone(), acalls: a.calls.clone(), dres, ares, incomings, arg_faults })
+    Ok(Obs { dcalls: d.calls.clone(), acalls: a.calls.clone(), dres, ares, incomings, arg_faults, z, early })
 }
 
 fn render(o: &Obs) -> String {
@@ -498,7 +727,8 @@ fn render(o: &Obs) -> String {
         }
     };
     let acalls = if peer_rejected { "*".to_string() } else { j(&o.acalls) };
-    format!("d:{}|{} a:{}|{}", j(&o.dcalls), d, acalls, a)
+    let early = if peer_rejected { "*" } else { o.early.unwrap_or("-") };
+    format!("d:{}|{}|{} a:{}|{}|{}", j(&o.dcalls), d, o.z, acalls, a, early)
 }
 
 /// The property evaluated on the observation and the script (no model involved).
@@ -507,7 +737,11 @@ fn oracle(sc: &Scenario, o: &Obs, ex: &mut Exec) {
     let first_dafter_rej = sc.dh.iter().position(|h| h.after_reject.is_some());
     let first_aafter_rej = sc.ah.iter().position(|h| h.after_reject.is_some());
     let all_accept = first_before_rej.is_none() && first_dafter_rej.is_none() && first_aafter_rej.is_none();
-    let established = o.dres == DRes::Estab || o.ares == ARes::Estab;
+    // When the dialer's own after-hook rejects, the acceptor races with the close; with accepted
+    // 0-RTT data it may even have read and echoed the early byte before the close arrived (0-RTT
+    // data is not gated by after-handshake hooks — see the model's `zero_rtt_data_before_hooks`).
+    let acceptor_raced = o.dres == DRes::RejAfter;
+    let established = o.dres == DRes::Estab || (o.ares == ARes::Estab && !acceptor_raced);
 
     // established only if every hook accepts (and the preconditions hold)
     if established && !(all_accept && sc.target == Target::Peer && sc.alpn == AlpnKind::Ok) {
@@ -575,6 +809,8 @@ fn oracle(sc: &Scenario, o: &Obs, ex: &mut Exec) {
                     }
                 }
                 ARes::RejAfter if first_aafter_rej.is_some() => {}
+                // accepted 0-RTT: the acceptor answered the early byte before the close arrived
+                ARes::Estab if sc.dv == DVar::ZAccepted && first_aafter_rej.is_none() => {}
                 other => ex.violation("C42:after-reject-not-closed", format!("dialer rejected with code {code}, acceptor saw {other:?}")),
             }
         } else if let Some(k) = first_aafter_rej {
@@ -595,6 +831,31 @@ fn oracle(sc: &Scenario, o: &Obs, ex: &mut Exec) {
     for f in &o.arg_faults {
         ex.violation("C42:hook-arguments", f.clone());
     }
+    // every connect variant runs the after-handshake hooks: a side that holds a `Connection`
+    // has had EVERY one of its after_handshake hooks called (and accepting)
+    let called = |calls: &Vec<String>, n: usize| (0..n).all(|i| calls.iter().any(|c| *c == format!("a{i}")));
+    if matches!(o.dres, DRes::Estab | DRes::Closed(..)) && (first_dafter_rej.is_some() || !called(&o.dcalls, sc.dh.len())) {
+        ex.violation(
+            "C42:variant-skipped-hooks",
+            format!("dialer variant {:?} obtained a Connection ({:?}) with hook calls {:?} of {} hooks (first rejecting: {:?})", sc.dv, o.dres, o.dcalls, sc.dh.len(), first_dafter_rej),
+        );
+    }
+    if o.ares == ARes::Estab && (first_aafter_rej.is_some() || !called(&o.acalls, sc.ah.len())) {
+        ex.violation(
+            "C42:variant-skipped-hooks",
+            format!("acceptor variant {:?} obtained a Connection with hook calls {:?} of {} hooks (first rejecting: {:?})", sc.av, o.acalls, sc.ah.len(), first_aafter_rej),
+        );
+    }
+    // 0-RTT status the variant promises
+    let want_z: &[&str] = match sc.dv {
+        DVar::Connect | DVar::Opts => &["-"],
+        DVar::ZNoTicket => &["none", "-"],
+        DVar::ZAccepted => &["acc", "?", "-"],
+        DVar::ZRejected => &["rej", "?", "-"],
+    };
+    if !want_z.contains(&o.z) {
+        ex.violation("C42:zero-rtt-status", format!("variant {:?} ended with 0-RTT status {}", sc.dv, o.z));
+    }
 }
 
 const CODES: [u64; 5] = [0, 1, 42, 300, (1 << 62) - 1];
@@ -608,6 +869,10 @@ fn hook_tok(h: &HookSpec) -> String {
             Some(c) => format!("r{c}"),
         }
     )
+}
+
+fn case_v(t: Target, a: AlpnKind, dh: &[HookSpec], ah: &[HookSpec], v: &str) -> String {
+    format!("{} V={v}", case(t, a, dh, ah))
 }
 
 fn case(t: Target, a: AlpnKind, dh: &[HookSpec], ah: &[HookSpec]) -> String {
@@ -663,6 +928,19 @@ impl Prop for C42 {
             case(Target::Peer, AlpnKind::Other, &[acc.clone(), ra(5)], &[ra(6)]),
             // the acceptor's before_connect verdicts are never consulted
             case(Target::Peer, AlpnKind::Ok, &[], &[rb.clone(), rb.clone()]),
+            // ---- connect variants: every path ends in the same hook chain ----
+            case_v(Target::Peer, AlpnKind::Ok, &[acc.clone(), ra(42)], &[acc.clone()], "za/a"),
+            case_v(Target::Peer, AlpnKind::Ok, &[acc.clone()], &[acc.clone(), ra(7)], "za/z"),
+            case_v(Target::Peer, AlpnKind::Ok, &[acc.clone()], &[acc.clone()], "za/z"),
+            case_v(Target::Peer, AlpnKind::Ok, &[acc.clone()], &[acc.clone()], "za/i"),
+            case_v(Target::Peer, AlpnKind::Ok, &[ra(9)], &[], "zr/a"),
+            case_v(Target::Peer, AlpnKind::Ok, &[acc.clone()], &[ra(11)], "zr/z"),
+            case_v(Target::Peer, AlpnKind::Ok, &[ra(5)], &[acc.clone()], "zn/a"),
+            case_v(Target::Peer, AlpnKind::Ok, &[acc.clone(), ra(3)], &[acc.clone()], "c/i"),
+            case_v(Target::Peer, AlpnKind::Ok, &[acc.clone()], &[ra(4)], "c/z"),
+            case_v(Target::SelfId, AlpnKind::Ok, &[acc.clone()], &[], "c/a"),
+            case_v(Target::Peer, AlpnKind::Empty, &[acc.clone()], &[], "zn/i"),
+            case_v(Target::Peer, AlpnKind::Ok, &[rb.clone()], &[], "za/a"),
         ];
         for f in fixed.into_iter().take(n) {
             out.push(f);
@@ -703,7 +981,14 @@ impl Prop for C42 {
             };
             let dh = Self::gen_hooks(rng, 15, 20);
             let ah = Self::gen_hooks(rng, 30, 25);
-            out.push(case(t, a, &dh, &ah));
+            if rng.chance(1, 2) {
+                out.push(case(t, a, &dh, &ah));
+            } else {
+                let z_ok = t == Target::Peer && a == AlpnKind::Ok;
+                let dv = if z_ok { *rng.pick(&["c", "o", "zn", "za", "za", "zr"]) } else { *rng.pick(&["c", "o", "zn"]) };
+                let av = *rng.pick(&["a", "i", "z"]);
+                out.push(case_v(t, a, &dh, &ah, &format!("{dv}/{av}")));
+            }
         }
     }
 
@@ -742,6 +1027,12 @@ impl Prop for C42 {
                     }
                     if sc.alpn == AlpnKind::Empty {
                         ex.tags.push("empty-alpn".into());
+                    }
+                    ex.tags.push(format!("dialer-variant={:?}", sc.dv));
+                    ex.tags.push(format!("acceptor-variant={:?}", sc.av));
+                    ex.tags.push(format!("zero-rtt={}", o.z));
+                    if let Some(e) = o.early {
+                        ex.tags.push(format!("early-data-read-{e}-hooks"));
                     }
                     return ex;
                 }
